@@ -264,8 +264,20 @@ func (x *exec) defaultCall(s *State, key string, args []Value, sig *types.Signat
 		s.next = nn
 	}
 	// havoc what the arguments give direct access to
-	for _, a := range args {
-		x.havocReachable(s, a)
+	for i, a := range args {
+		var pt types.Type
+		if sig != nil {
+			k := i
+			if sig.Recv() != nil {
+				k = i - 1
+			}
+			if k >= 0 && k < sig.Params().Len() {
+				pt = sig.Params().At(k).Type()
+			} else if k < 0 {
+				pt = sig.Recv().Type()
+			}
+		}
+		x.havocReachableT(s, a, pt)
 	}
 	before := s.alloc
 	na := e.C.Fresh("alloc.ext", Int)
@@ -280,9 +292,37 @@ func (x *exec) defaultCall(s *State, key string, args []Value, sig *types.Signat
 	return resultValue(vals, len(vals))
 }
 
-func (x *exec) havocReachable(s *State, a Value) {
+func (x *exec) havocReachable(s *State, a Value) { x.havocReachableT(s, a, nil) }
+
+// havocReachableT: t (when known) is the static type of the argument; a slice
+// argument gives access to elements of its own element type only.
+func (x *exec) havocReachableT(s *State, a Value, t types.Type) {
 	e := x.e
 	c := e.C
+	if sv, ok := a.(SliceV); ok && t != nil {
+		if sl, ok := t.Underlying().(*types.Slice); ok {
+			var keys []string
+			if structOf(sl.Elem()) != nil {
+				for _, lp := range e.structLeaves(sl.Elem()) {
+					keys = append(keys, lp.key)
+				}
+			} else {
+				for _, l := range e.leavesOf(sl.Elem()) {
+					keys = append(keys, elemKey(sl.Elem())+l.comp)
+				}
+			}
+			for _, key := range keys {
+				so, ok := e.heapSorts[key]
+				if !ok {
+					continue
+				}
+				h := e.heapGet(s, key, so)
+				e.noteWrite(s, key, wtarget{kind: wRow, arr: sv.Arr, lo: sv.Off, n: sv.Cap})
+				e.heapSet(s, key, c.Store(h, sv.Arr, c.Fresh("ext.row{"+key+"}", so.Elem)))
+			}
+			return
+		}
+	}
 	switch v := a.(type) {
 	case PtrV:
 		switch v.Kind {
